@@ -88,7 +88,11 @@ Definition run16 (pt : ptab) (ft : ftab) (cfg : bconfig) (table : option cdata_t
     | Some sr =>
         if tag_filter sr then outermost_f (tag_matches ps fs sr table) full
         else if string_filter sr then
-          map (fun ct => PStr (fst ct) (snd ct)) (filter (fun ct => string_allowed ps fs sr (snd ct)) (strings_f full))
+          (* with a document: the matching text runs of the document (C16_string_only_filter_runs, every document);
+             with raw events: the matching strings of the full parse *)
+          map (fun ct => PStr (fst ct) (snd ct))
+              (filter (fun ct => string_allowed ps fs sr (snd ct))
+                      (match doc with Some ds => text_runs cfg [] ds | None => strings_f full end))
         else if mixed_filter sr then []
         else full
     | None => full
